@@ -58,7 +58,7 @@ Print Assumptions c45_owner_value_is_latest.
 (* The specification oracle accepts every run of the model (given fresh-ring member lists that are right). *)
 Theorem c45_model_meets_spec : forall (h : list N -> N) (R P : nat), (1 <= R)%nat ->
   forall (ops : list (op val)) (os : list obs), fms_ok [] ops os = true ->
-  ok_trace ops (model_obs h R P (new val R P) ops os) = true.
+  ok_trace ops (model_obs h R P None (new val R P) ops os) = true.
 Proof. exact model_meets_spec. Qed.
 Print Assumptions c45_model_meets_spec.
 
